@@ -98,13 +98,15 @@ PROPS = {
     "C12": {
         "rule": "differential pairs: the same plan (hostile_srv / hostile_cli / faulty tunnel, all with truncation at arbitrary offsets, labels and pointers reaching the datagram end, RDLENGTH beyond the bytes present) "
                 "is executed twice, differing only in what every receive buffer holds beyond the datagram (zeros vs 0xFF / marker text / the previous datagram / pointer-like bytes); any difference in the run fingerprint "
-                "(all datagrams emitted, tun writes, wake-ups, exits) or in how the run ends is a violation. In addition a sample of plain runs of six scenarios is executed under valgrind/memcheck "
+                "(all datagrams emitted, tun writes, wake-ups, exits) or in how the run ends is a violation. Through the guarded hook VERIF_TAIL (MANIFEST.hooks) the same pattern also fills the unused rest of every decode buffer "
+                "(the client's reply buffers, the server's unpacked[] command buffer), so a decision that depends on what an earlier, longer reply or command left there differs between the two runs as well. In addition a sample of plain runs of six scenarios is executed under valgrind/memcheck "
                 "(the same deterministic simulator, uninstrumented build): a branch, address or system call of the real programs that depends on bytes nobody wrote - stack or heap residue, which the pair runs "
                 "cannot vary - is a violation, and so is any never-written byte in a datagram or tun frame the real programs emit (definedness check in the libc seam). evaluations counts pairs and memcheck runs; non-trivial = the underlying run was non-trivial; distinct = distinct fingerprints",
         "jobs": [
             {"scen": "hostile_srv", "sets": {"pair": True}, "quick": 700, "thorough": 60000},
             {"scen": "hostile_cli", "sets": {"pair": True}, "quick": 2000, "thorough": 150000},
             {"scen": "tunnel", "sets": {"mode": "faulty", "pair": True, "trunc": True}, "quick": 800, "thorough": 60000},
+            {"scen": "fakesrv", "sets": {"pair": True}, "quick": 800, "thorough": 60000},
             # memcheck runs: the residue the pair runs cannot vary (stack and heap bytes nobody wrote) made visible as "uninitialised"
             {"scen": "hostile_cli", "sets": {}, "quick": 48, "thorough": 3000, "vg": True},
             {"scen": "fakesrv", "sets": {}, "quick": 48, "thorough": 3000, "vg": True},
